@@ -34,14 +34,14 @@ Proof.
 Qed.
 
 (* typep, class-of and the methods a call finds all read the precedence list of the class object, which is
-   the specification's *)
+   the specification's; while the class is not ready (P = []) typep and dispatch see the hierarchy (t) *)
 Theorem typep_classof_dispatch_agree : forall w i, Inv w -> CacheInv w -> current w i = true ->
   exists n P, 
     (forall f l, lin (table w) f n = Some l -> P = n :: l ++ [SO; TT]) /\
     ((forall f, lin (table w) f n = None) -> P = []) /\
     snd (step w (OClassOf i) [] []) = ONames P /\
-    (forall m, snd (step w (OTypep i m) [] []) = OB (memb m P)) /\
-    (forall k, snd (call_gf w k i) = match applicable (get_gf w k) P with [] => None | l => Some l end).
+    (forall m, snd (step w (OTypep i m) [] []) = OB (memb m (hier_of P))) /\
+    (forall k, snd (call_gf w k i) = match applicable (get_gf w k) (hier_of P) with [] => None | l => Some l end).
 Proof.
   intros w i HI HC Hcur.
   destruct (call_gf_spec w 0 i HI HC Hcur) as [ins [c [Ei [Hr _]]]].
@@ -68,49 +68,135 @@ Fixpoint auto_hist (w : world) (ops : list op) : list hstep :=
   end.
 
 (* ---- refutations: outside the guard the faithful model violates S --------------------------------- *)
-(* (1) classChanged visits the subclasses in map order: a (=0), b (=1) under a, c (=2) under b, z (=3);
-   a is redefined with the superclass z; when c is merged before b it copies b's stale list *)
+(* (1) REPAIRED (repo_fixes/C12-2, finding C12-redefinition-order-of-subclasses).  a (=0), b (=1) under a,
+   c (=2) under b, z (=3); a is redefined with the superclass z.  The unchanged classChanged merged the
+   inheriting classes in map order: when c was merged before b it copied b's stale list.  Now both map orders
+   are inside the guard and give c the specification's list. *)
 Definition h_chain : list hstep := [dc 0 [] [] [0] []; dc 1 [0] [] [0; 1] []; dc 2 [1] [] [0; 1; 2] []; dc 3 [] [] [0; 1; 2; 3] []].
-Definition w_bad_order : list hstep := h_chain ++ [dc 0 [3] [] [4; 1; 2; 3] [2; 1]].
-Definition w_good_order : list hstep := h_chain ++ [dc 0 [3] [] [4; 1; 2; 3] [1; 2]].
-Theorem classchanged_order_refuted :
-  guard_ops w0 h_chain = true /\ guard_ops w0 w_bad_order = false /\
-  prec_of (run w0 w_bad_order) 2 = [2; 1; 0; SO; TT] /\ spec_prec (run w0 w_bad_order) 2 = [2; 1; 0; 3; SO; TT] /\
-  guard_ops w0 w_good_order = true /\ prec_of (run w0 w_good_order) 2 = [2; 1; 0; 3; SO; TT].
+Definition w_order_cb : list hstep := h_chain ++ [dc 0 [3] [] [4; 1; 2; 3] [2; 1]].
+Definition w_order_bc : list hstep := h_chain ++ [dc 0 [3] [] [4; 1; 2; 3] [1; 2]].
+Theorem classchanged_any_order_example :
+  guard_ops w0 w_order_cb = true /\ guard_ops w0 w_order_bc = true /\
+  prec_of (run w0 w_order_cb) 2 = [2; 1; 0; 3; SO; TT] /\ prec_of (run w0 w_order_bc) 2 = [2; 1; 0; 3; SO; TT] /\
+  spec_prec (run w0 w_order_cb) 2 = [2; 1; 0; 3; SO; TT].
+Proof. vm_compute. repeat split. Qed.
+(* the unchanged code, for the record: merging in the order given *)
+Definition class_changed_orig (w : world) (n : nat) (corder : list nat) : world :=
+  fold_left (fun w id => if inherits w id n then fst (merge w id) else w) corder w.
+Theorem original_classchanged_order_refuted :
+  let pre := defclass_pre (run w0 h_chain) 0 [3] [] [4; 1; 2; 3] in
+  prec_of (class_changed_orig pre 0 [2; 1]) 2 = [2; 1; 0; SO; TT] /\
+  prec_of (class_changed_orig pre 0 [1; 2]) 2 = [2; 1; 0; 3; SO; TT] /\
+  prec_of (class_changed pre 0 [2; 1]) 2 = [2; 1; 0; 3; SO; TT].
 Proof. vm_compute. repeat split. Qed.
 
-(* (2) a redefinition whose new superclass is not defined yet: the subclass keeps its old precedence list
-   for good, also after the missing class has been defined *)
-Definition w_fwd_prefix : list hstep := [dc 0 [] [] [0] []; dc 1 [0] [] [0; 1] []].
-Definition w_fwd : list hstep := w_fwd_prefix ++ [dc 0 [3] [] [2; 1] [1]; dc 3 [] [] [2; 1; 3] [2]].
-Theorem redefinition_forward_reference_refuted :
-  guard_ops w0 w_fwd_prefix = true /\ guard_ops w0 w_fwd = false /\
+(* (2) REPAIRED (repo_fixes/C12-3, finding C12-redefinition-with-undefined-superclass).  a (=0), b (=1)
+   under a; a is redefined with the superclass z (=3), which is defined afterwards.  The unchanged mergeSupers
+   left b ready with its old list when its re-merge failed, and nothing merged b again.  Now the history is
+   inside the guard: b is not ready while z is missing and has the specification's list once z is defined. *)
+Definition w_fwd_prefix : list hstep := [dc 0 [] [] [0] []; dc 1 [0] [] [0; 1] []; other (OMake 1 [])].
+Definition w_fwd_mid : list hstep := w_fwd_prefix ++ [dc 0 [3] [] [2; 1] [1]].
+Definition w_fwd : list hstep := w_fwd_mid ++ [dc 3 [] [] [2; 1; 3] [2; 1]].
+Theorem redefinition_forward_reference_example :
+  guard_ops w0 w_fwd = true /\
+  prec_of (run w0 w_fwd_mid) 0 = [] /\ prec_of (run w0 w_fwd_mid) 1 = [] /\ spec_prec (run w0 w_fwd_mid) 1 = [] /\
+  snd (step (run w0 w_fwd_mid) (OTypep 0 1) [] []) = OB false /\ snd (step (run w0 w_fwd_mid) (OMake 1 []) [] []) = OErr /\
   prec_of (run w0 w_fwd) 0 = [0; 3; SO; TT] /\
-  prec_of (run w0 w_fwd) 1 = [1; 0; SO; TT] /\ spec_prec (run w0 w_fwd) 1 = [1; 0; 3; SO; TT].
+  prec_of (run w0 w_fwd) 1 = [1; 0; 3; SO; TT] /\ spec_prec (run w0 w_fwd) 1 = [1; 0; 3; SO; TT] /\
+  snd (step (run w0 w_fwd) (OTypep 0 3) [] []) = OB true.
+Proof. vm_compute. repeat split. Qed.
+(* the unchanged code, for the record: a failing merge emptied the inherit list only *)
+Definition merge_orig (w : world) (id : nat) : world :=
+  match get w id with
+  | None => w
+  | Some c =>
+      match phase1 (reg w) (heap w) (co_supers c) [] with
+      | None => with_heap w (set_nth (heap w) id (mkCO (co_name c) (co_supers c) (co_slots c) [] (co_prec c) (co_initargs c) (co_initforms c)))
+      | Some _ => fst (merge w id)
+      end
+  end.
+Theorem original_redefinition_forward_reference_refuted :
+  let pre := defclass_pre (run w0 w_fwd_prefix) 0 [3] [] [2; 1] in
+  prec_of (merge_orig pre 1) 1 = [1; 0; SO; TT] /\ readyb (merge_orig pre 1) 1 = true /\ inherits (merge_orig pre 1) 1 0 = false /\
+  spec_prec pre 1 = [] /\ prec_of (class_changed pre 0 [1]) 1 = [].
 Proof. vm_compute. repeat split. Qed.
 
-(* (3) the dispatch cache is keyed by the class name and survives a redefinition: b (=1) under a (=0) is
-   redefined under z (=3); a new instance of b still gets a's method, although typep denies it is an a *)
+(* (3) REPAIRED (repo_fixes/C12-4, finding C12-dispatch-cache-survives-redefinition).  b (=1) under a (=0) is
+   redefined under z (=3) after a call cached "b -> a's method".  The unchanged code kept the entry: a new
+   instance of b still got a's method although typep denies it is an a.  Now defclass drops the caches: the
+   history is inside the guard and the new instance gets z's method. *)
 Definition w_cache_prefix : list hstep :=
   [dc 0 [] [] [0] []; dc 3 [] [] [0; 1] []; dc 1 [0] [] [0; 1; 2] []; other (ODefMethod 0); other (ODefMethod 3);
    other (OMake 1 []); other (ODispatch 0)].
 Definition w_cache : list hstep := w_cache_prefix ++ [dc 1 [3] [] [0; 1; 3] []; other (OMake 1 []); other (ODispatch 1); other (OTypep 1 0)].
-Theorem dispatch_cache_stale_refuted :
-  guard_ops w0 w_cache_prefix = true /\ guard_ops w0 w_cache = false /\
+Theorem dispatch_cache_cleared_example :
+  guard_ops w0 w_cache = true /\
   prec_of (run w0 w_cache) 1 = [1; 3; SO; TT] /\ spec_prec (run w0 w_cache) 1 = [1; 3; SO; TT] /\
-  skipn 9 (run_obs w0 w_cache) = [ONames [0]; OB false].
+  skipn 6 (run_obs w0 w_cache_prefix) = [ONames [0]] /\
+  skipn 9 (run_obs w0 w_cache) = [ONames [3]; OB false].
+Proof. vm_compute. repeat split. Qed.
+(* the unchanged code, for the record: the same defclass without ClearCaches *)
+Theorem original_dispatch_cache_stale_refuted :
+  let w := run w0 w_cache_prefix in
+  let w1 := fst (step (defclass_merged w 1 [3] [] [0; 1; 3] []) (OMake 1 []) [] []) in
+  let w2 := fst (step (defclass w 1 [3] [] [0; 1; 3] []) (OMake 1 []) [] []) in
+  snd (step w1 (ODispatch 1) [] []) = ONames [0] /\ snd (step w1 (OTypep 1 0) [] []) = OB false /\
+  snd (step w2 (ODispatch 1) [] []) = ONames [3].
+Proof. vm_compute. repeat split. Qed.
+(* (3') STILL OUTSIDE THE GUARD: the cache is keyed by the class NAME.  An instance made before the redefinition
+   keeps the old class object; a call with it (not guarded: its class object is not the registered one) caches
+   "b -> a's method" again, and the next call with a new instance of b uses that entry. *)
+Definition w_key_prefix : list hstep :=
+  [dc 0 [] [] [0] []; dc 3 [] [] [0; 1] []; dc 1 [0] [] [0; 1; 2] []; other (ODefMethod 0); other (ODefMethod 3);
+   other (OMake 1 []); dc 1 [3] [] [0; 1; 3] []; other (OMake 1 [])].
+Definition w_key : list hstep := w_key_prefix ++ [other (ODispatch 0); other (ODispatch 1); other (OTypep 1 0)].
+Theorem dispatch_cache_class_name_refuted :
+  guard_ops w0 w_key_prefix = true /\ guard_ops w0 w_key = false /\
+  guard_ops w0 (w_key_prefix ++ [other (ODispatch 1)]) = true /\
+  last (run_obs w0 (w_key_prefix ++ [other (ODispatch 1)])) OErr = ONames [3] /\
+  prec_of (run w0 w_key) 1 = [1; 3; SO; TT] /\ spec_prec (run w0 w_key) 1 = [1; 3; SO; TT] /\
+  skipn 8 (run_obs w0 w_key) = [ONames [0]; ONames [0]; OB false].
 Proof. vm_compute. repeat split. Qed.
 
-(* (4) an initarg declared for two slots fills one of them only (here: x of class a and y of its subclass b
-   both take :k) *)
+(* (4) REPAIRED (repo_fixes/C12-5, finding C12-initarg-shared-by-two-slots).  x of class a and y of its subclass
+   b both take :k; x and y of class c both take :k within one form.  The unchanged initArgs map held one slot
+   per initarg: only the most specific one was filled.  Now both histories are inside the guard and :k fills
+   both slots, as slot_S says. *)
 Definition sdx := mkSD 0 [0] None false false false.
 Definition sdy := mkSD 1 [0] None false false false.
-Definition w_shared_prefix : list hstep := [dc 0 [] [sdx] [0] []; dc 1 [0] [sdy] [0; 1] []].
-Definition w_shared : list hstep := w_shared_prefix ++ [other (OMake 1 [(0, 5%Z)])].
-Theorem shared_initarg_refuted :
-  guard_ops w0 w_shared_prefix = true /\ guard_ops w0 w_shared = false /\
-  last (run_obs w0 w_shared) OErr = OInst [SUnbound; SVal 5; SMissing; SMissing] /\
+Definition w_shared_prefix : list hstep := [dc 0 [] [sdx] [0] []; dc 1 [0] [sdy] [0; 1] []; dc 2 [] [sdx; sdy] [0; 1; 2] []].
+Definition w_shared : list hstep := w_shared_prefix ++ [other (OMake 1 [(0, 5%Z)]); other (OMake 2 [(0, 6%Z)])].
+Theorem shared_initarg_example :
+  guard_ops w0 w_shared = true /\
+  skipn 3 (run_obs w0 w_shared) = [OInst [SVal 5; SVal 5; SMissing; SMissing]; OInst [SVal 6; SVal 6; SMissing; SMissing]] /\
   map (slot_S (cs_of (run w0 w_shared_prefix)) [1; 0] [(0, 5%Z)]) [0; 1; 2; 3] = [SVal 5; SVal 5; SMissing; SMissing].
+Proof. vm_compute. repeat split. Qed.
+(* the unchanged code, for the record: the first slot found for the initarg only *)
+Fixpoint shared_args_orig (ia : list (nat * nat)) (args : list (nat * Z)) (seen : list nat) (vs : varmap)
+  : option (list nat * varmap) :=
+  match args with
+  | [] => Some (seen, vs)
+  | (k, v) :: r =>
+      match lookup ia k with
+      | None => None
+      | Some s => if memb s seen then None else shared_args_orig ia r (s :: seen) (set_assoc vs s (Some v))
+      end
+  end.
+Theorem original_shared_initarg_refuted :
+  let w := run w0 w_shared_prefix in
+  match lookup (reg w) 1 with
+  | Some id => match get w id with
+               | Some c =>
+                   let v0 := fold_left (fun vs p => init_inh (slots_of (heap w) p) vs) (co_inherit c) (init_own (co_slots c) []) in
+                   match shared_args_orig (co_initargs c) [(0, 5%Z)] [] v0, shared_args (co_initargs c) [(0, 5%Z)] [] v0 with
+                   | Some (_, v1), Some (_, v2) =>
+                       map (slot_state v1) [0; 1] = [SUnbound; SVal 5] /\ map (slot_state v2) [0; 1] = [SVal 5; SVal 5]
+                   | _, _ => False
+                   end
+               | None => False
+               end
+  | None => False
+  end.
 Proof. vm_compute. repeat split. Qed.
 
 (* (5) two initargs of one slot, both supplied: an error instead of the first one's value *)
